@@ -1,6 +1,7 @@
 package main
 
 import (
+	"bufio"
 	"bytes"
 	"crypto"
 	"crypto/ed25519"
@@ -19,6 +20,7 @@ import (
 	"path/filepath"
 	"runtime"
 	"sort"
+	"strconv"
 	"strings"
 	"sync"
 	"time"
@@ -738,6 +740,57 @@ func c04Distinct(obs []string, labels []string) (SL, string, string) {
 	return l, obs[0], labels[0]
 }
 
+// c04ConcMain is the child: `verifharness c04conc <path> <goroutines> <per>`; one line per observation:
+// label TAB observation.
+func c04ConcMain() {
+	p := os.Args[2]
+	g, _ := strconv.Atoi(os.Args[3])
+	per, _ := strconv.Atoi(os.Args[4])
+	w := bufio.NewWriter(os.Stdout)
+	defer w.Flush()
+	for _, procs := range []int{1, 2, 16} {
+		runtime.GOMAXPROCS(procs)
+		res := make([][]string, g)
+		var wg sync.WaitGroup
+		for k := 0; k < g; k++ {
+			wg.Add(1)
+			go func(k int) {
+				defer wg.Done()
+				for i := 0; i < per; i++ {
+					o, _ := inspectObs(p)
+					res[k] = append(res[k], o.String())
+				}
+			}(k)
+		}
+		wg.Wait()
+		for k := 0; k < g; k++ {
+			for i, o := range res[k] {
+				fmt.Fprintf(w, "GOMAXPROCS=%d goroutine %d of %d repetition %d\t%s\n", procs, k, g, i, o)
+			}
+		}
+	}
+}
+
+func c04ConcChild(p string, g, per int) (obs, labels []string) {
+	self, _ := os.Executable()
+	cmd := exec.Command(self, "c04conc", p, strconv.Itoa(g), strconv.Itoa(per))
+	var se bytes.Buffer
+	cmd.Stderr = &se
+	out, err := cmd.Output()
+	for _, l := range strings.Split(strings.TrimRight(string(out), "\n"), "\n") {
+		if i := strings.IndexByte(l, '\t'); i >= 0 {
+			labels = append(labels, l[:i])
+			obs = append(obs, l[i+1:])
+		}
+	}
+	if err != nil {
+		first := strings.SplitN(se.String(), "\n", 2)[0]
+		obs = append(obs, SL{I(2), S(first)}.String())
+		labels = append(labels, "the process inspecting the file from several goroutines died: "+first)
+	}
+	return
+}
+
 func genC04(c *Ctx) {
 	reps, bigReps, nRandom, conc, concBig := 100, 50, 10, 3, 5
 	if c.Thorough() {
@@ -827,29 +880,10 @@ func genC04(c *Ctx) {
 		if in.big {
 			per = concBig
 		}
-		obs, labels = nil, nil
-		for _, procs := range []int{1, 2, 16} {
-			runtime.GOMAXPROCS(procs)
-			res := make([][]string, g)
-			var wg sync.WaitGroup
-			for w := 0; w < g; w++ {
-				wg.Add(1)
-				go func(w int) {
-					defer wg.Done()
-					for k := 0; k < per; k++ {
-						o, _ := inspectObs(p)
-						res[w] = append(res[w], o.String())
-					}
-				}(w)
-			}
-			wg.Wait()
-			for w := 0; w < g; w++ {
-				for k, o := range res[w] {
-					obs = append(obs, o)
-					labels = append(labels, fmt.Sprintf("GOMAXPROCS=%d goroutine %d of %d repetition %d", procs, w, g, k))
-				}
-			}
-		}
+		// in a child process of the harness: a fatal run-time error of the code under test (for instance
+		// "concurrent map read and map write" - not recoverable) must be an observation of this case,
+		// not the end of the whole run
+		obs, labels = c04ConcChild(p, g, per)
 		runtime.GOMAXPROCS(procs0)
 		l, first, firstLabel = c04Distinct(obs, labels)
 		c.Emit("conc:"+in.tag, SL{S(in.name), SB(in.data), SB([]byte(first)), S(firstLabel)}, l)
